@@ -15,7 +15,7 @@ func propC11(c *Ctx) propInfo {
 	pp := c.mustFn("E8.mustcheck", "liteclient", "ParsePacket")
 	if pp != nil {
 		c.mustDominate("E8.mustcheck", pp, 1, []requiredCheck{
-			{name: "bytes.Equal(trailer, sha256(nonce|payload))", src: callResult("bytes.Equal"), kind: "bool"},
+			bytesEqualCheck("trailer == sha256(nonce|payload)"),
 		}, nil, "")
 		c.boundsAtSuccess("E8.bounds", pp, 1, "frame length", func(v ssa.Value) bool {
 			return derivesFrom(v, callResult("encoding/binary.littleEndian.Uint32"), false)
@@ -71,7 +71,7 @@ func (c *Ctx) adnlLayouts() {
 		c.check(len(rs) == 1 && rs[0].how == "LE32", R, "ParsePacket reads the length little-endian", f.Pos(), "LE32", "ParsePacket no longer reads the 4-byte length little-endian")
 		// the checksum is sha256 over nonce|payload: compare against p.hash()
 		okHash := false
-		for _, cl := range callsTo(f, "bytes.Equal") {
+		for _, cl := range bytesEqualCalls(f) {
 			okHash = derivesFrom(cl.Call.Args[1], callResult(modPath+"/liteclient.Packet.hash"), false) || derivesFrom(cl.Call.Args[0], callResult(modPath+"/liteclient.Packet.hash"), false)
 		}
 		c.check(okHash, R, "the trailer is compared with sha256(nonce|payload)", f.Pos(), "bytes.Equal(trailer, p.hash())", "ParsePacket no longer compares the trailer with the hash of nonce and payload")
